@@ -228,6 +228,31 @@ Fixpoint rebind_ok (srv dep : list N) (cur : option N) (tr : list rev) : bool :=
   end.
 Definition obs_c10_rebind_justified (tr : list rev) : bool := rebind_ok (server_labels tr) [] None tr.
 
+(** while a replier's sink has answered Pending to poll_ready (the buffered request, or the
+    rejection, waits for it) the router is blocked on that sink: it does not pull the next request
+    from a requestor stream -- doing so would overwrite the one that waits *)
+Fixpoint no_pull_while_waiting (srv cli : list N) (waiting : option N) (tr : list rev) : bool :=
+  match tr with
+  | [] => true
+  | e :: r =>
+    match e with
+    | VSink l OReady RPending => if memb l srv then no_pull_while_waiting srv cli (Some l) r else no_pull_while_waiting srv cli waiting r
+    | VSink l OReady _ | VSink l (OSend _) _ | VSink l OFlush RErr | VStream l FEnd =>
+      match waiting with
+      | Some w => if l =? w then no_pull_while_waiting srv cli None r else no_pull_while_waiting srv cli waiting r
+      | None => no_pull_while_waiting srv cli waiting r
+      end
+    | VStream c (FItem (FMsg _)) =>
+      match waiting with
+      | Some _ => if memb c cli then false else no_pull_while_waiting srv cli waiting r
+      | None => no_pull_while_waiting srv cli waiting r
+      end
+    | _ => no_pull_while_waiting srv cli waiting r
+    end
+  end.
+Definition obs_c02_no_pull_while_request_waits (tr : list rev) : bool :=
+  no_pull_while_waiting (server_labels tr) (client_labels tr) None tr.
+
 Definition rcompleted (tr : list rev) : bool := existsb (fun e => match e with VEnd true => true | _ => false end) tr.
 
 (** C09 on traces: peer calls per poll bounded by the data consumed in it *)
